@@ -443,6 +443,11 @@ def run_case(cfg, acc):
                         asyncio.ensure_future(_quiet(circuit.shutdown()))
             else:
                 await asyncio.sleep(0)
+                # somebody waits for the initialisation and gives up after half a second (while an
+                # asynchronous initialisation, if any, is still in progress)
+                impatient = res['impatient'] = asyncio.ensure_future(_quiet(circuit.wait_init()))
+                handle = loop.call_later(0.5, impatient.cancel)
+                impatient.add_done_callback(lambda _f, _h=handle: _h.cancel())
                 if instant == 'async-init':
                     await asyncio.sleep(1)
                     res['in_async_init'] = not main.done() and circuit.error is None
@@ -495,7 +500,14 @@ def run_case(cfg, acc):
             res['t_end'] = sim.now
             res['n_log_end'] = len(log)
             res['flog_end'] = {k: list(v) for k, v in flog.items()}
-            # census at the moment the simulation is over
+            # census at the moment the simulation is over (the impatient wait_init() caller gets
+            # its turn first; if it is still waiting, it gives up now)
+            for _ in range(3):
+                await asyncio.sleep(0)
+            imp = res.pop('impatient', None)
+            if imp is not None and not imp.done():
+                imp.cancel()
+                await asyncio.sleep(0)
             await asyncio.sleep(0)
             tasks = [t for t in asyncio.all_tasks(loop) if not t.done() and t is not me]
             timers = [h for h in loop._scheduled if not h._cancelled]
